@@ -436,6 +436,14 @@ impl Avp {
     }
 
     pub fn decode_from<R: Read + Seek>(reader: &mut R, dict: Arc<Dictionary>) -> Result<Avp> {
+        Avp::decode_from_depth(reader, dict, 0)
+    }
+
+    pub(crate) fn decode_from_depth<R: Read + Seek>(
+        reader: &mut R,
+        dict: Arc<Dictionary>,
+        depth: usize,
+    ) -> Result<Avp> {
         let header = AvpHeader::decode_from(reader)?;
 
         let header_length = if header.flags.vendor { 12 } else { 8 };
@@ -476,10 +484,11 @@ impl Avp {
                 AvpValue::DiameterURI(DiameterURI::decode_from(reader, value_length as usize)?)
             }
             AvpType::Time => AvpValue::Time(Time::decode_from(reader)?),
-            AvpType::Grouped => AvpValue::Grouped(Grouped::decode_from(
+            AvpType::Grouped => AvpValue::Grouped(Grouped::decode_from_depth(
                 reader,
                 value_length as usize,
                 Arc::clone(&dict),
+                depth + 1,
             )?),
             AvpType::Unknown => return Err(Error::UnknownAvpCode(header.code)),
         };
